@@ -649,11 +649,20 @@ func (env *LEnv) Update(k, v *LVal) *LVal {
 }
 
 func (env *LEnv) update(k, v *LVal) *LVal {
+	// A package-qualified symbol is never resolved through the lexical
+	// chain: evaluation (eval, get) goes straight to the package table.  A
+	// binding form does accept `pkg:name` as a name to bind, which creates a
+	// lexical slot that no evaluation can read; set! used to find that slot
+	// first, write it and report success, leaving the package binding it
+	// names untouched -- (let ((user:x 5)) (set! user:x 9) user:x) was 1.
+	colonIdx := strings.IndexByte(k.Str, ':')
 	for {
-		_, ok := env.scope[k.Str]
-		if ok {
-			env.scope[k.Str] = v
-			return Nil()
+		if colonIdx < 0 {
+			_, ok := env.scope[k.Str]
+			if ok {
+				env.scope[k.Str] = v
+				return Nil()
+			}
 		}
 		if env.parent == nil {
 			// A package-qualified symbol names a binding of that package,
